@@ -460,42 +460,66 @@ Proof.
   apply existsb_false. eapply Forall_impl; [|exact HA]. intros e He. destruct e; auto.
 Qed.
 
-Lemma omitted_false f c : f_skip f = false -> f_omitempty f = false -> omitted (claim_value SW) c f = false.
-Proof. intros Sk Om. unfold omitted. rewrite Sk, Om. destruct (claim_value SW f c) as [[|]|]; reflexivity. Qed.
+(** [omitted] with the omitempty flag tested first, so that it computes for the fields that are never omitted *)
+Definition is_nil_val (x : option (option cbor)) : bool := match x with Some None => true | _ => false end.
 
-Arguments enc_swcs : simpl never.
+Definition om (c : claims) (f : field_tag) : bool :=
+  f_skip f || (f_omitempty f && is_nil_val (claim_value SW f c)).
+
+Lemma omitted_om c f : omitted (claim_value SW) c f = om c f.
+Proof. unfold omitted, om, is_nil_val. destruct (f_skip f), (f_omitempty f), (claim_value SW f c) as [[|]|]; reflexivity. Qed.
+
+Lemma fold_left_ext {A B} (g g' : A -> B -> A) (l : list B) : (forall a x, g a x = g' a x) -> forall a, fold_left g l a = fold_left g' l a.
+Proof. intro H. induction l as [|x l IH]; intro a; cbn; [reflexivity|]. rewrite H. apply IH. Qed.
 
 Lemma fold_filter {A B} (p : B -> bool) (g : A -> B -> A) (l : list B) : forall a,
   fold_left g (filter p l) a = fold_left (fun a x => if p x then g a x else a) l a.
 Proof. induction l as [|x l IH]; intro a; cbn; [reflexivity|]. destruct (p x); cbn; apply IH. Qed.
 
-Ltac kill_nonomit c :=
+Lemma emitted_fold c ts acc :
+  fold_left (fun acc f => putf_claim f c acc) (emitted (claim_value SW) c ts) acc =
+  fold_left (fun acc f => if om c f then acc else putf_claim f c acc) ts acc.
+Proof.
+  unfold emitted. rewrite fold_filter. apply fold_left_ext. intros a x. rewrite omitted_om. destruct (om c x); reflexivity.
+Qed.
+
+Arguments enc_swcs : simpl never.
+
+(** decide every remaining "is this field's value nil" test by evaluation *)
+Ltac decide_nil_tests :=
   repeat match goal with
-  | |- context [omitted (claim_value SW) c ?f] => rewrite (omitted_false f c eq_refl eq_refl)
+  | |- context [is_nil_val (claim_value SW ?f ?c)] =>
+      let X := fresh "X" in
+      first [ assert (is_nil_val (claim_value SW f c) = true) as X
+                by (unfold is_nil_val, claim_value; cbn; try destruct (enc_swcs _ _); reflexivity)
+            | assert (is_nil_val (claim_value SW f c) = false) as X
+                by (unfold is_nil_val, claim_value; cbn; try destruct (enc_swcs _ _); reflexivity) ];
+      rewrite X; clear X
   end.
 
 Lemma final_p1 c : c_kind c = K1 -> claims_wire_ok c ->
   view (fold_left (fun acc f => putf_claim f c acc) (emitted (claim_value SW) c spec_p1_fields) (upd_profile (new_p1 S true) None)) = view c.
 Proof.
-  intros K Ok. unfold emitted. rewrite fold_filter. unfold spec_p1_fields. cbn [fold_left]. kill_nonomit c. cbn [negb].
+  intros K Ok. rewrite emitted_fold.
   destruct c as [k p cl lc im bo ce sw ns no ins vs can]. cbn in K. subst k.
   destruct Ok as (Ca & Pr & _). cbn in Ca, Pr. subst can.
+  unfold spec_p1_fields, om. cbn [fold_left f_skip f_omitempty orb andb].
   destruct p as [[s| |]|]; try contradiction;
   destruct ce as [ce|]; destruct sw as [[|o l]|]; destruct ns as [ns|]; destruct vs as [vs|];
-    unfold omitted, claim_value; cbn;
-    try (destruct (enc_swcs SW (o :: l)); cbn); reflexivity.
+    decide_nil_tests; reflexivity.
 Qed.
 
 Lemma final_p2 c : c_kind c = K2 -> claims_wire_ok c ->
   view (fold_left (fun acc f => putf_claim f c acc) (emitted (claim_value SW) c spec_p2_fields) (upd_profile (new_p2 S) None)) = view c.
 Proof.
-  intros K Ok. unfold emitted. rewrite fold_filter. unfold spec_p2_fields. cbn [fold_left]. kill_nonomit c. cbn [negb].
+  intros K Ok. rewrite emitted_fold.
   destruct c as [k p cl lc im bo ce sw ns no ins vs can]. cbn in K. subst k.
   destruct Ok as (Ca & Pr & _ & _ & _ & _ & _ & _ & Ns & _). cbn in Ca, Pr, Ns. subst can.
   destruct p as [[s| |]|]; try contradiction. subst s.
   destruct ns as [ns|]; [destruct Ns; discriminate|].
+  unfold spec_p2_fields, om. cbn [fold_left f_skip f_omitempty orb andb].
   destruct bo as [bo|]; destruct ce as [ce|]; destruct vs as [vs|]; destruct sw as [[|o l]|];
-    unfold omitted, claim_value; cbn; reflexivity.
+    decide_nil_tests; reflexivity.
 Qed.
 
 (** Decoding the encoding of a claims-set gives back, observably, that claims-set. *)
@@ -505,7 +529,8 @@ Theorem encode_decode_roundtrip c b :
 Proof.
   intros Ok E. unfold encode_cbor, encode_tree in E. change (w_swc W) with SW in E. fold (tags_k (c_kind c)) in E.
   destruct (enc_fields_gen (claim_value SW) (tags_k (c_kind c)) c) as [kvs|] eqn:EF; [|discriminate].
-  cbn [option_map] in E. injection E as <-.
+  unfold option_map in E. injection E as <-.
+  change (head 5 (N.of_nat (length kvs)) ++ flat_map (fun kv => enc (fst kv) ++ enc (snd kv)) kvs)%list with (enc (CMap kvs)).
   pose proof (kvs_good c kvs Ok EF) as G.
   assert (N.of_nat (length kvs) < 2 ^ 64) as Ln.
   { pose proof (enc_fields_length (claim_value SW) c _ _ EF) as L.
